@@ -479,6 +479,25 @@ def partial(m, seed, keep_frac=0.6, mode="random"):
     return out
 
 
+def with_orphans(m, seed, k):
+    """k extra nodes that no face uses, inserted at random places of the node numbering (legal in every format that
+    stores a node table: a regional cut that keeps the parent's nodes, a hand-edited mesh)."""
+    rng = _rng(seed, 43)
+    n = m.n_node + k
+    slots = np.sort(rng.choice(n, size=k, replace=False))
+    is_orphan = np.zeros(n, dtype=bool)
+    is_orphan[slots] = True
+    new_of_old = np.nonzero(~is_orphan)[0]
+    xyz = np.empty((n, 3))
+    xyz[new_of_old] = m.xyz
+    P = _safe_points(rng, max(k, 4))[:k]
+    xyz[slots] = P
+    out = Mesh(xyz, [[int(new_of_old[v]) for v in f] for f in m.faces], dict(m.desc, orphans=[seed, k]), False)
+    out.orphans = [int(i) for i in slots]
+    out.tiles_sphere = m.closed
+    return out
+
+
 def shrunk(m, seed, scale):
     """High-resolution regional patch: the faces within ~70 degrees of a random node, contracted towards that node by
     `scale` (p -> unit(c + scale*(p - c))): same incidence and orientation, face sizes of ~scale times the original."""
